@@ -310,6 +310,14 @@ def run(ctx, rep):
     # updates of the look-ahead sit under the ticker guard (shared with C02-R6 / C09-R2)
     import rules.c02 as c02
     c02.same_security(R, rep, "R8")
+    # "not already claimed by an earlier disposal": the claims a disposal makes on a later acquisition are ACCUMULATED on that
+    # acquisition's own entry (shared with C02-R3); a claim that overwrites the earlier ones lets a third disposal match shares
+    # that are no longer there (seeded change C01-s3)
+    r3 = Report("tmp")
+    c02.pairing(R, r3)
+    for o in r3.obligations:
+        if o["instance"].startswith("30-day:"):
+            rep.ob("R6", o["instance"], o["ok"], o["detail"], o["site"], key="R6:" + o["instance"])
 
 
 def controls(pctx, rep):
